@@ -354,6 +354,26 @@ func domOwnFirst(r *engine.Run) {
 						break
 					}
 					committedHere, known := markerFact(f, a.from, markers)
+					if !known && a.from != c.Block() {
+						// the edge out of the marker test itself: `hash := prev; if committed { hash = own }`
+						if iff, ok := a.from.Instrs[len(a.from.Instrs)-1].(*ssa.If); ok {
+							cond, neg := iff.Cond, false
+							for {
+								if u, ok := cond.(*ssa.UnOp); ok && u.Op == token.NOT {
+									cond, neg = u.X, !neg
+									continue
+								}
+								break
+							}
+							if fld := fieldLoadOf(cond); fld != nil && markers[fld.Name()] {
+								for si, sb := range a.from.Succs {
+									if ph, ok := hashArg.(*ssa.Phi); ok && sb == ph.Block() {
+										committedHere, known = (si == 0) != neg, true
+									}
+								}
+							}
+						}
+					}
 					switch fld.Name() {
 					case spec.prevField:
 						if clears && !(known && !committedHere) {
